@@ -739,12 +739,12 @@ fn corpus() -> Vec<Fixed> {
         Fixed {
             name: "witness-emoji-comment",
             text: "PROGRAM P\nVAR x : INT; END_VAR\n(* 😀 *) x := 1;\nEND_PROGRAM\n",
-            notes: vec![vec![rg(2, 15, 2, 16, "2")], vec![rg(2, 15, 2, 16, "3"), rg(2, 16, 2, 16, "4")]],
+            notes: vec![vec![rg(2, 14, 2, 15, "2")], vec![rg(2, 14, 2, 15, "3"), rg(2, 15, 2, 15, "4")]],
         },
         Fixed {
             name: "witness-emoji-string",
             text: "PROGRAM P\nVAR s : STRING; x : INT; END_VAR\ns := '😀'; x := 1;\nEND_PROGRAM\n",
-            notes: vec![vec![rg(2, 17, 2, 18, "2")]],
+            notes: vec![vec![rg(2, 16, 2, 17, "2")]],
         },
         Fixed { name: "design-emoji-x", text: "😀x", notes: vec![vec![rg(0, 2, 0, 2, "y")], vec![rg(0, 4, 0, 4, "z")]] },
         // inside the pair: the server resolves to the next boundary
@@ -898,6 +898,8 @@ struct Answers {
     tokens: Value,
     diagnostics: Value,
     formatting: Value,
+    /// foldingRange, inlayHint (whole document), codeLens, documentLink
+    extras: Vec<(&'static str, Value)>,
 }
 
 fn ask_all(l: &mut lsp::Lsp, uri: &str, pull: bool) -> Result<Answers, String> {
@@ -909,7 +911,17 @@ fn ask_all(l: &mut lsp::Lsp, uri: &str, pull: bool) -> Result<Answers, String> {
         "textDocument/formatting",
         json!({"textDocument": {"uri": uri}, "options": {"tabSize": 4, "insertSpaces": true}}),
     )?);
-    Ok(Answers { symbols, tokens, diagnostics, formatting })
+    let whole = json!({"start": {"line": 0, "character": 0}, "end": {"line": 1_000_000, "character": 0}});
+    let mut extras = Vec::new();
+    for (name, method, params) in [
+        ("folding", "textDocument/foldingRange", td.clone()),
+        ("inlay", "textDocument/inlayHint", json!({"textDocument": {"uri": uri}, "range": whole})),
+        ("codelens", "textDocument/codeLens", td.clone()),
+        ("links", "textDocument/documentLink", td.clone()),
+    ] {
+        extras.push((name, canon(&l.request(method, params)?)));
+    }
+    Ok(Answers { symbols, tokens, diagnostics, formatting, extras })
 }
 
 fn short(v: &Value) -> String {
@@ -937,6 +949,27 @@ fn answer_oracles(lines: &mut Vec<String>, stats: &mut Vec<String>, reference: &
         stats.push(format!("positions-checked-{name}:{}", ps.len()));
         match ps.iter().find(|(l, c)| !valid(*l, *c)) {
             Some((l, c)) => lines.push(format!("# oracle positions-{name} FAIL line={l} col={c} answer={}", short(v))),
+            None => lines.push(format!("# oracle positions-{name} ok n={}", ps.len())),
+        }
+    }
+    for (name, v) in &a.extras {
+        let mut ps = Vec::new();
+        collect_positions(v, &mut ps);
+        stats.push(format!("positions-checked-{name}:{}", ps.len()));
+        let mut bad = ps.iter().find(|(l, c)| !valid(*l, *c)).map(|(l, c)| format!("line={l} col={c}"));
+        if *name == "folding" {
+            if let Some(arr) = v.as_array() {
+                for f in arr {
+                    for key in ["startLine", "endLine"] {
+                        if f[key].as_u64().is_some_and(|l| l as usize >= table.len()) {
+                            bad = Some(format!("{key}={} beyond the last line", f[key]));
+                        }
+                    }
+                }
+            }
+        }
+        match bad {
+            Some(b) => lines.push(format!("# oracle positions-{name} FAIL {b} answer={}", short(v))),
             None => lines.push(format!("# oracle positions-{name} ok n={}", ps.len())),
         }
     }
@@ -1449,12 +1482,16 @@ fn session(
         })();
         f.stop();
         let fresh = fres?;
-        for (name, x, y) in [
+        let mut pairs = vec![
             ("symbols", &inc.symbols, &fresh.symbols),
             ("tokens", &inc.tokens, &fresh.tokens),
             ("diagnostics", &inc.diagnostics, &fresh.diagnostics),
             ("formatting", &inc.formatting, &fresh.formatting),
-        ] {
+        ];
+        for ((name, x), (_, y)) in inc.extras.iter().zip(fresh.extras.iter()) {
+            pairs.push((*name, x, y));
+        }
+        for (name, x, y) in pairs {
             if x == y {
                 lines.push(format!("# oracle fresh-{name} ok"));
             } else {
